@@ -26,6 +26,8 @@ fn build_out(p: &Packet, compressed: bool) -> (String, Option<Vec<u8>>) {
 }
 
 /// packets for the round-trip properties: every kind in every section, shared suffixes, sizes
+pub fn build_out_pub(p: &Packet, compressed: bool) -> (String, Option<Vec<u8>>) { build_out(p, compressed) }
+
 pub fn packets(tier: &str, seed: u64, big: bool) -> Vec<(Packet<'static>, String)> {
     let thorough = tier == "thorough";
     let mut g = Gen::new(seed);
@@ -87,6 +89,19 @@ pub fn packets(tier: &str, seed: u64, big: bool) -> Vec<(Packet<'static>, String
             for (i, n) in names.iter().enumerate().rev() {
                 let other = names[(i * 7 + 3) % n_names].clone();
                 p.additional_records.push(ResourceRecord::new(n.clone(), CLASS::IN, 2, rdata::RData::CNAME(rdata::CNAME(other))));
+            }
+            v.push((p, "many-names".to_string()));
+        }
+        // names that each extend the previous one by a leading label: the compressor writes the k-th as one label
+        // and a pointer to the (k-1)-th, so that reading the last one back follows k-1 pointers (up to 126 are legal)
+        for depth in [5usize, 17, 40, 126] {
+            let mut p = Packet::new_reply(depth as u16);
+            let mut labels: Vec<Vec<u8>> = vec![];
+            for k in 0..depth {
+                labels.insert(0, vec![b'a' + (k % 26) as u8]);
+                let n = crate::gen::mk_name(&labels);
+                if k % 2 == 0 { p.answers.push(ResourceRecord::new(n, CLASS::IN, 1, rdata::RData::A(rdata::A { address: k as u32 }))); }
+                else { p.answers.push(ResourceRecord::new(crate::gen::mk_name(&[b"x".to_vec()]), CLASS::IN, 1, rdata::RData::CNAME(rdata::CNAME(n)))); }
             }
             v.push((p, "many-names".to_string()));
         }
